@@ -38,6 +38,9 @@ RULE = (
     " A 2050-row (thorough 4100-row) table through bulktable, table and a two-root bulk walk."
     " The agent confirms a SET under another name (keys stay str); one wrapper hands out 7200"
     "0 distinct OIDs."
+    ' TrapInfo (origin, uptime, trap OID, values) for 260 notifications decoded from independ'
+    'ently written octets. One case in five follows a bulk walk the device refused as tooBig,'
+    ' on wrapper and raw client alike.'
 )
 ASSUMPTIONS = [
     "pythonisation per type: INTEGER/Counter/Gauge/Counter64 -> int, OCTET STRING/Opaque -> bytes, OID -> dotted str, IpAddress -> IPv4Address, TimeTicks -> timedelta(10 ms * t), NULL and exception markers -> None",
